@@ -23,3 +23,10 @@
      :pattern ((rr c n)))))
 ; the context a cancel function (context.WithCancel) cancels
 (declare-fun ctxOf (Int) Iface)
+; values of packed iterators: itSeq[a] is the sequence of values of the iterator at address a,
+; itPos[a] the number of values read so far (C01)
+; ghost itSeq (Array Int (Array Int Int))
+; ghost itPos (Array Int Int)
+; prefix sums (delta coding): psum(s, k) = s[0] + ... + s[k-1]
+(define-fun-rec psum ((s (Array Int Int)) (k Int)) Int
+  (ite (<= k 0) 0 (+ (psum s (- k 1)) (select s (- k 1)))))
